@@ -34,7 +34,12 @@ def check(rep, tier, rng):
     chain = "typedef int i1;" + "".join("typedef i%d i%d;" % (i, i + 1) for i in range(1, 9))
     cyc += [chain + "union u switch (i9 k) { case 1: int v1; };", chain + "struct s { i9 f1; i9 f2<>; };",
             "typedef opaque o1<>; typedef o1 o2; typedef o2 o3; struct s { o3 f; o3 g<>; };"]
-    cases = sup + oos + mut + [{"text": t, "kind": "golden"} for t in t3.golden_inputs()] + [{"text": t, "kind": "typedef-cycle"} for t in cyc]
+    aff = []
+    for base in [sup[0]["text"], "const A = 1;", "struct s { int a; };", ""]:
+        for j in ["\x0c", "\x0b", "\u0085", "\u00a0", "\u2028", "\u2029", "\u3000", "\u1680", "\ufeff", "\u200b", "\x00", "\x1a", "\r", "\r\n", " \t\n"]:
+            aff += [j + base, base + j, j + base + j]
+    cases = (sup + oos + mut + [{"text": t, "kind": "golden"} for t in t3.golden_inputs()] + [{"text": t, "kind": "typedef-cycle"} for t in cyc]
+             + [{"text": t, "kind": "unicode-space-affix"} for t in aff])
     texts = [c["text"] for c in cases]
     res = t3.run_texts(texts)
     greqs = ["gen d " + t3.hx(t) for t in texts]
